@@ -115,7 +115,7 @@ std::vector<std::string>& split(std::vector<std::string>* into,
 
     tlx::string_view::const_iterator it = str.begin(), last = it;
 
-    for (; it + sep.size() < str.end(); ++it)
+    while (static_cast<size_t>(str.end() - it) >= sep.size())
     {
         if (std::equal(sep.begin(), sep.begin() + sep.size(), it))
         {
@@ -126,7 +126,13 @@ std::vector<std::string>& split(std::vector<std::string>* into,
             }
 
             into->emplace_back(last, it);
-            last = it + sep.size();
+            // continue behind the separator, not inside it
+            it += sep.size();
+            last = it;
+        }
+        else
+        {
+            ++it;
         }
     }
 
